@@ -1,1 +1,1039 @@
-fn main() {}
+//! C28 — type analysis identifies exactly the structurally equal types.
+//!
+//! Worlds rich in equal / near-equal types (same bodies under different names,
+//! renamed fields, reordered cases, aliases, `use … as …`, same-shape distinct
+//! resources, nested anonymous types), plus witgen worlds, are analysed by the
+//! real `wit_bindgen_core::Types`.
+//!
+//!  A. classes — `analyze` + `collect_equal_types(|_| true)`; for every pair of
+//!     live types (`LiveTypes::add_world`) `get_representative_type` must agree
+//!     iff the canonical strings computed here agree (dealiased type tree with
+//!     field / case / flag names in order; a resource is equal only to itself;
+//!     type names are not part of the string).
+//!  B. facts — on a second `Types` (analyze only) every type's content facts and
+//!     every NAMED type's usage facts must lie between the weakest (`lo`) and
+//!     the most generous (`hi`) reading of the statement computed here.
+//!  C. union — after merging, each live type carries the union of the facts its
+//!     (oracle) class members had before merging.
+//!  D. end-to-end — the real Rust generator with merge_structurally_equal_types:
+//!     the number of `struct`/`enum` items named after live record / variant /
+//!     enum types equals the number of classes among them (syn-parsed output).
+use corelib_mon::{catch, clip, fan_out, only_case};
+use serde_json::{json, Value};
+use std::collections::{BTreeMap, BTreeSet, HashMap};
+use vkit::{Args, Report, Rng};
+use wit_bindgen_core::{Files, TypeInfo, Types, WorldGenerator};
+use wit_parser::{Function, Handle, LiveTypes, Resolve, Type, TypeDefKind, TypeId, WorldId, WorldItem};
+
+// ------------------------------------------------------------ world generator
+
+#[derive(Clone)]
+struct Named {
+    name: String,
+    is_resource: bool,
+    has_borrow: bool,
+    /// text of a closed body (only primitives) so that it can be repeated elsewhere
+    closed_body: Option<String>,
+}
+
+struct Gen<'a> {
+    rng: &'a mut Rng,
+    counter: usize,
+    /// closed definitions seen so far in this world: (keyword, body)
+    bodies: Vec<(String, String)>,
+    use_async: bool,
+}
+
+const PRIMS: &[&str] = &["u32", "string", "u8", "bool", "u32", "string"];
+const FIELDS: &[&str] = &["x", "y", "z"];
+const CASES: &[&str] = &["a", "b", "c"];
+
+impl Gen<'_> {
+    fn id(&mut self, p: &str) -> String {
+        self.counter += 1;
+        format!("{p}{}", self.counter)
+    }
+
+    /// (text, has_borrow)
+    fn ty(&mut self, scope: &[Named], depth: usize, allow_borrow: bool) -> (String, bool) {
+        let roll = self.rng.below(if depth >= 2 { 9 } else { 20 });
+        match roll {
+            0..=3 => (self.rng.pick(PRIMS).to_string(), false),
+            4..=8 => {
+                let c: Vec<&Named> = scope.iter().filter(|n| allow_borrow || !n.has_borrow).collect();
+                if c.is_empty() {
+                    return (self.rng.pick(PRIMS).to_string(), false);
+                }
+                let n = c[self.rng.usize(c.len())];
+                if n.is_resource {
+                    if allow_borrow && self.rng.chance(1, 2) {
+                        (format!("borrow<{}>", n.name), true)
+                    } else {
+                        (n.name.clone(), false)
+                    }
+                } else {
+                    (n.name.clone(), n.has_borrow)
+                }
+            }
+            9 | 10 => {
+                let (t, b) = self.ty(scope, depth + 1, allow_borrow);
+                (format!("list<{t}>"), b)
+            }
+            11 | 12 => {
+                let (t, b) = self.ty(scope, depth + 1, allow_borrow);
+                (format!("option<{t}>"), b)
+            }
+            13 | 14 => {
+                let (t, b) = self.ty(scope, depth + 1, allow_borrow);
+                let (u, c) = self.ty(scope, depth + 1, allow_borrow);
+                (format!("tuple<{t}, {u}>"), b || c)
+            }
+            15 | 16 => {
+                let (t, b) = self.ty(scope, depth + 1, allow_borrow);
+                let (u, c) = self.ty(scope, depth + 1, allow_borrow);
+                match self.rng.below(4) {
+                    0 => (format!("result<_, {u}>"), c),
+                    1 => (format!("result<{t}>"), b),
+                    _ => (format!("result<{t}, {u}>"), b || c),
+                }
+            }
+            17 => {
+                let (t, b) = self.ty(scope, depth + 1, allow_borrow);
+                (format!("map<string, {t}>"), b)
+            }
+            18 if self.use_async => {
+                let (t, _) = self.ty(scope, depth + 1, false);
+                let t = if t == "char" { "u8".to_string() } else { t };
+                if self.rng.chance(1, 2) {
+                    (format!("future<{t}>"), false)
+                } else {
+                    (format!("stream<{t}>"), false)
+                }
+            }
+            _ => {
+                let (t, b) = self.ty(scope, depth + 1, allow_borrow);
+                (format!("list<{t}>"), b)
+            }
+        }
+    }
+
+    fn small_ty(&mut self, scope: &[Named]) -> (String, bool, bool) {
+        // (text, has_borrow, closed)
+        if self.rng.chance(3, 5) {
+            (self.rng.pick(&["u32", "string", "u32", "list<u8>"]).to_string(), false, true)
+        } else {
+            let (t, b) = self.ty(scope, 1, true);
+            let closed = !scope.iter().any(|n| t.contains(&n.name));
+            (t, b, closed)
+        }
+    }
+
+    fn typedefs(&mut self, out: &mut String, scope: &mut Vec<Named>, n: usize) {
+        for _ in 0..n {
+            // repeat a closed body seen elsewhere under a new name
+            if !self.bodies.is_empty() && self.rng.chance(1, 3) {
+                let (kw, body) = self.bodies[self.rng.usize(self.bodies.len())].clone();
+                let name = self.id(&format!("{}x", &kw[..1]));
+                out.push_str(&format!("  {kw} {name} {body}\n"));
+                scope.push(Named { name, is_resource: false, has_borrow: false, closed_body: Some(body) });
+                continue;
+            }
+            match self.rng.below(14) {
+                0..=3 => {
+                    let name = self.id("rc");
+                    let nf = self.rng.range(1, 2);
+                    let mut names: Vec<&str> = FIELDS.to_vec();
+                    self.rng.shuffle(&mut names);
+                    let mut parts = vec![];
+                    let (mut hb, mut closed) = (false, true);
+                    for f in names.iter().take(nf) {
+                        let (t, b, c) = self.small_ty(scope);
+                        hb |= b;
+                        closed &= c;
+                        parts.push(format!("{f}: {t}"));
+                    }
+                    let body = format!("{{ {} }}", parts.join(", "));
+                    out.push_str(&format!("  record {name} {body}\n"));
+                    if closed {
+                        self.bodies.push(("record".into(), body.clone()));
+                    }
+                    scope.push(Named { name, is_resource: false, has_borrow: hb, closed_body: closed.then_some(body) });
+                }
+                4 | 5 => {
+                    let name = self.id("vr");
+                    let nc = self.rng.range(1, 3);
+                    let mut names: Vec<&str> = CASES.to_vec();
+                    if self.rng.chance(1, 3) {
+                        self.rng.shuffle(&mut names);
+                    }
+                    let mut parts = vec![];
+                    let (mut hb, mut closed) = (false, true);
+                    for c in names.iter().take(nc) {
+                        if self.rng.chance(1, 2) {
+                            let (t, b, cl) = self.small_ty(scope);
+                            hb |= b;
+                            closed &= cl;
+                            parts.push(format!("{c}({t})"));
+                        } else {
+                            parts.push(c.to_string());
+                        }
+                    }
+                    let body = format!("{{ {} }}", parts.join(", "));
+                    out.push_str(&format!("  variant {name} {body}\n"));
+                    if closed {
+                        self.bodies.push(("variant".into(), body.clone()));
+                    }
+                    scope.push(Named { name, is_resource: false, has_borrow: hb, closed_body: None });
+                }
+                6 | 7 => {
+                    let kw = if self.rng.chance(1, 2) { "enum" } else { "flags" };
+                    let name = self.id(&format!("{}y", &kw[..1]));
+                    let nc = self.rng.range(1, 3);
+                    let mut names: Vec<&str> = CASES.to_vec();
+                    if self.rng.chance(1, 3) {
+                        self.rng.shuffle(&mut names);
+                    }
+                    let body = format!("{{ {} }}", names[..nc].join(", "));
+                    out.push_str(&format!("  {kw} {name} {body}\n"));
+                    self.bodies.push((kw.into(), body));
+                    scope.push(Named { name, is_resource: false, has_borrow: false, closed_body: None });
+                }
+                8..=10 => {
+                    let name = self.id("ty");
+                    let (t, b) = if self.rng.chance(1, 2) && !scope.is_empty() {
+                        // plain alias of a named type
+                        let c: Vec<Named> = scope.iter().filter(|n| !n.is_resource).cloned().collect();
+                        if c.is_empty() {
+                            self.ty(scope, 0, true)
+                        } else {
+                            let n = &c[self.rng.usize(c.len())];
+                            (n.name.clone(), n.has_borrow)
+                        }
+                    } else {
+                        self.ty(scope, 0, true)
+                    };
+                    // a named handle alias (`type t = borrow<r>`) makes the Rust generator panic (C16's business)
+                    let t = if t.starts_with("borrow<") { format!("list<{t}>") } else { t };
+                    out.push_str(&format!("  type {name} = {t};\n"));
+                    scope.push(Named { name, is_resource: false, has_borrow: b, closed_body: None });
+                }
+                _ => {
+                    let name = self.id("res");
+                    scope.push(Named { name: name.clone(), is_resource: true, has_borrow: false, closed_body: None });
+                    if self.rng.chance(1, 2) {
+                        out.push_str(&format!("  resource {name};\n"));
+                    } else {
+                        let (p, _) = self.ty(scope, 1, true);
+                        out.push_str(&format!("  resource {name} {{\n    constructor(a: {p});\n    m{}: func() -> u32;\n  }}\n", self.counter));
+                    }
+                }
+            }
+        }
+    }
+
+    fn func(&mut self, out: &mut String, scope: &[Named], prefix: &str) {
+        let name = self.id("fn");
+        let np = self.rng.range(0, 3);
+        let mut ps = vec![];
+        for i in 0..np {
+            let (t, _) = self.ty(scope, 0, true);
+            ps.push(format!("p{i}: {t}"));
+        }
+        let res = if self.rng.chance(3, 4) {
+            let (t, _) = if self.rng.chance(1, 3) {
+                // result with an error type, so `error` facts get exercised
+                let (ok, _) = self.ty(scope, 1, false);
+                let (err, _) = self.ty(scope, 1, false);
+                (format!("result<{ok}, {err}>"), false)
+            } else {
+                self.ty(scope, 0, false)
+            };
+            format!(" -> {t}")
+        } else {
+            String::new()
+        };
+        let a = if self.use_async && self.rng.chance(1, 4) { "async " } else { "" };
+        out.push_str(&format!("  {prefix}{name}: {a}func({}){res};\n", ps.join(", ")));
+    }
+}
+
+struct GenWorld {
+    wit: String,
+    both_ways: bool,
+}
+
+fn gen_world(rng: &mut Rng) -> GenWorld {
+    let use_async = rng.chance(1, 4);
+    let mut g = Gen { rng, counter: 0, bodies: vec![], use_async };
+    let mut s = String::from("package t:p;\n");
+    let n_if = g.rng.range(1, 3);
+    let mut ifaces: Vec<(String, Vec<Named>)> = vec![];
+    for k in 0..n_if {
+        let iname = format!("i{k}");
+        s.push_str(&format!("interface {iname} {{\n"));
+        let mut scope: Vec<Named> = vec![];
+        if !ifaces.is_empty() && g.rng.chance(2, 3) {
+            let (src, types) = ifaces[g.rng.usize(ifaces.len())].clone();
+            let mut picks = vec![];
+            for t in &types {
+                if g.rng.chance(1, 2) {
+                    if g.rng.chance(1, 3) {
+                        let nn = g.id("qu");
+                        picks.push(format!("{} as {nn}", t.name));
+                        scope.push(Named { name: nn, ..t.clone() });
+                    } else {
+                        picks.push(t.name.clone());
+                        scope.push(t.clone());
+                    }
+                }
+            }
+            if !picks.is_empty() {
+                s.push_str(&format!("  use {src}.{{{}}};\n", picks.join(", ")));
+            }
+        }
+        let nt = g.rng.range(1, 6);
+        g.typedefs(&mut s, &mut scope, nt);
+        for _ in 0..g.rng.range(1, 3) {
+            g.func(&mut s, &scope, "");
+        }
+        s.push_str("}\n");
+        ifaces.push((iname, scope));
+    }
+    s.push_str("world w {\n");
+    let mut both_ways = false;
+    let mut any = false;
+    for (i, _) in &ifaces {
+        match g.rng.below(7) {
+            0..=2 => s.push_str(&format!("  import {i};\n")),
+            3..=5 => s.push_str(&format!("  export {i};\n")),
+            _ => {
+                both_ways = true;
+                s.push_str(&format!("  import {i};\n  export {i};\n"));
+            }
+        }
+        any = true;
+    }
+    let _ = any;
+    let mut wscope: Vec<Named> = vec![];
+    if g.rng.chance(1, 2) {
+        let (src, types) = ifaces[g.rng.usize(ifaces.len())].clone();
+        let picks: Vec<String> = types
+            .iter()
+            .filter(|_| g.rng.chance(1, 2))
+            .map(|t| {
+                wscope.push(t.clone());
+                t.name.clone()
+            })
+            .collect();
+        if !picks.is_empty() {
+            s.push_str(&format!("  use {src}.{{{}}};\n", picks.join(", ")));
+        }
+        let n = g.rng.range(0, 3);
+        g.typedefs(&mut s, &mut wscope, n);
+    }
+    for _ in 0..g.rng.range(0, 2) {
+        let dir = if g.rng.chance(1, 2) { "import " } else { "export " };
+        g.func(&mut s, &wscope, dir);
+    }
+    s.push_str("}\n");
+    GenWorld { wit: s, both_ways }
+}
+
+// ------------------------------------------------------------ oracle: structure
+
+fn prim_name(t: &Type) -> &'static str {
+    match t {
+        Type::Bool => "bool",
+        Type::U8 => "u8",
+        Type::U16 => "u16",
+        Type::U32 => "u32",
+        Type::U64 => "u64",
+        Type::S8 => "s8",
+        Type::S16 => "s16",
+        Type::S32 => "s32",
+        Type::S64 => "s64",
+        Type::F32 => "f32",
+        Type::F64 => "f64",
+        Type::Char => "char",
+        Type::String => "string",
+        Type::ErrorContext => "error-context",
+        Type::Id(_) => "?",
+    }
+}
+
+struct Oracle<'a> {
+    r: &'a Resolve,
+    canon: HashMap<TypeId, String>,
+    content: HashMap<TypeId, Content>,
+}
+
+/// facts: 0 has_list, 1 has_tuple, 2 has_resource, 3 has_borrow_handle, 4 has_own_handle
+#[derive(Clone, Copy, Default, Debug)]
+struct Content {
+    lo: [bool; 5],
+    hi: [bool; 5],
+}
+impl Content {
+    fn or(&mut self, o: Content) {
+        for i in 0..5 {
+            self.lo[i] |= o.lo[i];
+            self.hi[i] |= o.hi[i];
+        }
+    }
+    fn both(&mut self, i: usize) {
+        self.lo[i] = true;
+        self.hi[i] = true;
+    }
+}
+
+impl<'a> Oracle<'a> {
+    fn canon_ty(&mut self, t: &Type) -> String {
+        match t {
+            Type::Id(id) => self.canon_id(*id),
+            p => prim_name(p).to_string(),
+        }
+    }
+    fn canon_opt(&mut self, t: &Option<Type>) -> String {
+        match t {
+            Some(t) => self.canon_ty(t),
+            None => "_".into(),
+        }
+    }
+    fn canon_id(&mut self, id: TypeId) -> String {
+        if let Some(s) = self.canon.get(&id) {
+            return s.clone();
+        }
+        let r = self.r;
+        let s = match &r.types[id].kind {
+            TypeDefKind::Type(t) => self.canon_ty(t),
+            TypeDefKind::Record(rec) => {
+                let fs: Vec<String> = rec.fields.iter().map(|f| format!("{}:{}", f.name, self.canon_ty(&f.ty))).collect();
+                format!("record{{{}}}", fs.join(","))
+            }
+            TypeDefKind::Variant(v) => {
+                let cs: Vec<String> = v.cases.iter().map(|c| format!("{}({})", c.name, self.canon_opt(&c.ty))).collect();
+                format!("variant{{{}}}", cs.join(","))
+            }
+            TypeDefKind::Enum(e) => format!("enum{{{}}}", e.cases.iter().map(|c| c.name.clone()).collect::<Vec<_>>().join(",")),
+            TypeDefKind::Flags(f) => format!("flags{{{}}}", f.flags.iter().map(|c| c.name.clone()).collect::<Vec<_>>().join(",")),
+            TypeDefKind::Tuple(t) => format!("tuple<{}>", t.types.iter().map(|t| self.canon_ty(t)).collect::<Vec<_>>().join(",")),
+            TypeDefKind::List(t) => format!("list<{}>", self.canon_ty(t)),
+            TypeDefKind::FixedLengthList(t, n) => format!("list<{},{n}>", self.canon_ty(t)),
+            TypeDefKind::Option(t) => format!("option<{}>", self.canon_ty(t)),
+            TypeDefKind::Result(res) => format!("result<{},{}>", self.canon_opt(&res.ok), self.canon_opt(&res.err)),
+            TypeDefKind::Map(k, v) => format!("map<{},{}>", self.canon_ty(k), self.canon_ty(v)),
+            TypeDefKind::Future(t) => format!("future<{}>", self.canon_opt(t)),
+            TypeDefKind::Stream(t) => format!("stream<{}>", self.canon_opt(t)),
+            TypeDefKind::Handle(Handle::Own(x)) => format!("own<{}>", self.canon_id(*x)),
+            TypeDefKind::Handle(Handle::Borrow(x)) => format!("borrow<{}>", self.canon_id(*x)),
+            TypeDefKind::Resource => format!("resource#{}", id.index()),
+            TypeDefKind::Unknown => "unknown".into(),
+        };
+        self.canon.insert(id, s.clone());
+        s
+    }
+
+    fn kind_name(&self, id: TypeId) -> &'static str {
+        let mut id = id;
+        loop {
+            return match &self.r.types[id].kind {
+                TypeDefKind::Type(Type::Id(x)) => {
+                    id = *x;
+                    continue;
+                }
+                TypeDefKind::Type(_) => "primitive-alias",
+                TypeDefKind::Record(_) => "record",
+                TypeDefKind::Variant(_) => "variant",
+                TypeDefKind::Enum(_) => "enum",
+                TypeDefKind::Flags(_) => "flags",
+                TypeDefKind::Tuple(_) => "tuple",
+                TypeDefKind::List(_) => "list",
+                TypeDefKind::FixedLengthList(..) => "fixed-list",
+                TypeDefKind::Option(_) => "option",
+                TypeDefKind::Result(_) => "result",
+                TypeDefKind::Map(..) => "map",
+                TypeDefKind::Future(_) => "future",
+                TypeDefKind::Stream(_) => "stream",
+                TypeDefKind::Handle(Handle::Own(_)) => "own",
+                TypeDefKind::Handle(Handle::Borrow(_)) => "borrow",
+                TypeDefKind::Resource => "resource",
+                TypeDefKind::Unknown => "unknown",
+            };
+        }
+    }
+
+    fn content_ty(&mut self, t: &Type) -> Content {
+        let mut c = Content::default();
+        match t {
+            Type::String => c.both(0),
+            Type::ErrorContext => c.hi[2] = true, // "a resource (or handle)": unclear ⇒ either
+            Type::Id(id) => return self.content_id(*id),
+            _ => {}
+        }
+        c
+    }
+    fn content_opt(&mut self, t: &Option<Type>) -> Content {
+        t.as_ref().map(|t| self.content_ty(t)).unwrap_or_default()
+    }
+    fn content_id(&mut self, id: TypeId) -> Content {
+        if let Some(c) = self.content.get(&id) {
+            return *c;
+        }
+        let r = self.r;
+        let mut c = Content::default();
+        match &r.types[id].kind {
+            TypeDefKind::Type(t) | TypeDefKind::Option(t) => c = self.content_ty(t),
+            TypeDefKind::Record(rec) => {
+                for f in &rec.fields {
+                    c.or(self.content_ty(&f.ty));
+                }
+            }
+            TypeDefKind::Variant(v) => {
+                for case in &v.cases {
+                    c.or(self.content_opt(&case.ty));
+                }
+            }
+            TypeDefKind::Enum(_) | TypeDefKind::Flags(_) => {}
+            TypeDefKind::Tuple(t) => {
+                for t in &t.types {
+                    c.or(self.content_ty(t));
+                }
+                c.both(1);
+            }
+            TypeDefKind::List(t) => {
+                c = self.content_ty(t);
+                c.both(0);
+            }
+            TypeDefKind::FixedLengthList(t, _) => {
+                c = self.content_ty(t);
+                c.hi[0] = true; // is a fixed-length list "a list"? either
+            }
+            TypeDefKind::Map(k, v) => {
+                c = self.content_ty(k);
+                c.or(self.content_ty(v));
+                c.hi[0] = true; // is a map "a list"? either
+            }
+            TypeDefKind::Result(res) => {
+                c = self.content_opt(&res.ok);
+                c.or(self.content_opt(&res.err));
+            }
+            TypeDefKind::Future(t) | TypeDefKind::Stream(t) => {
+                // handles of their own kind; whether they (and their payload) count is unclear ⇒ hi only
+                let p = self.content_opt(t);
+                for i in 0..5 {
+                    c.hi[i] |= p.hi[i];
+                }
+                c.hi[2] = true;
+                c.hi[4] = true;
+            }
+            TypeDefKind::Handle(Handle::Own(_)) => {
+                c.both(2);
+                c.both(4);
+            }
+            TypeDefKind::Handle(Handle::Borrow(_)) => {
+                c.both(2);
+                c.both(3);
+            }
+            TypeDefKind::Resource => c.both(2),
+            TypeDefKind::Unknown => {}
+        }
+        self.content.insert(id, c);
+        c
+    }
+
+    /// type ids reachable from `t`; `through_payloads` also enters future/stream payloads
+    fn reach(&self, t: &Type, through_payloads: bool, out: &mut BTreeSet<TypeId>) {
+        let Type::Id(id) = t else { return };
+        if !out.insert(*id) {
+            return;
+        }
+        let r = self.r;
+        match &r.types[*id].kind {
+            TypeDefKind::Type(t) | TypeDefKind::Option(t) | TypeDefKind::List(t) | TypeDefKind::FixedLengthList(t, _) => self.reach(t, through_payloads, out),
+            TypeDefKind::Record(rec) => rec.fields.iter().for_each(|f| self.reach(&f.ty, through_payloads, out)),
+            TypeDefKind::Variant(v) => v.cases.iter().filter_map(|c| c.ty.as_ref()).for_each(|t| self.reach(t, through_payloads, out)),
+            TypeDefKind::Tuple(t) => t.types.iter().for_each(|t| self.reach(t, through_payloads, out)),
+            TypeDefKind::Map(k, v) => {
+                self.reach(k, through_payloads, out);
+                self.reach(v, through_payloads, out);
+            }
+            TypeDefKind::Result(res) => {
+                if let Some(t) = &res.ok {
+                    self.reach(t, through_payloads, out);
+                }
+                if let Some(t) = &res.err {
+                    self.reach(t, through_payloads, out);
+                }
+            }
+            TypeDefKind::Future(t) | TypeDefKind::Stream(t) => {
+                if through_payloads {
+                    if let Some(t) = t {
+                        self.reach(t, through_payloads, out);
+                    }
+                }
+            }
+            TypeDefKind::Handle(Handle::Own(x)) | TypeDefKind::Handle(Handle::Borrow(x)) => self.reach(&Type::Id(*x), through_payloads, out),
+            TypeDefKind::Resource | TypeDefKind::Enum(_) | TypeDefKind::Flags(_) | TypeDefKind::Unknown => {}
+        }
+    }
+}
+
+/// usage facts: 0 borrowed, 1 owned, 2 error
+#[derive(Default)]
+struct Usage {
+    lo: [BTreeSet<TypeId>; 3],
+    hi: [BTreeSet<TypeId>; 3],
+}
+
+fn usage(o: &Oracle, resolve: &Resolve) -> Usage {
+    let mut u = Usage::default();
+    let mut visit = |f: &Function, import: bool| {
+        for p in &f.params {
+            let which = if import { 0 } else { 1 };
+            o.reach(&p.ty, false, &mut u.lo[which]);
+            o.reach(&p.ty, true, &mut u.hi[which]);
+        }
+        if let Some(res) = &f.result {
+            o.reach(res, false, &mut u.lo[1]);
+            o.reach(res, true, &mut u.hi[1]);
+            // error, weakest reading: the (dealiased) error type of a function whose result is directly a `result`
+            if let Type::Id(id) = res {
+                if let TypeDefKind::Result(rr) = &resolve.types[*id].kind {
+                    if let Some(Type::Id(mut e)) = rr.err {
+                        while let TypeDefKind::Type(Type::Id(x)) = &resolve.types[e].kind {
+                            e = *x;
+                        }
+                        u.lo[2].insert(e);
+                    }
+                }
+            }
+        }
+        // error, generous reading: anything reachable from the error side of any result type reachable from the signature
+        let mut all = BTreeSet::new();
+        for p in &f.params {
+            o.reach(&p.ty, true, &mut all);
+        }
+        if let Some(res) = &f.result {
+            o.reach(res, true, &mut all);
+        }
+        for id in all {
+            if let TypeDefKind::Result(rr) = &resolve.types[id].kind {
+                if let Some(e) = &rr.err {
+                    o.reach(e, true, &mut u.hi[2]);
+                }
+            }
+        }
+    };
+    for (_, w) in resolve.worlds.iter() {
+        for (import, items) in [(true, &w.imports), (false, &w.exports)] {
+            for (_, item) in items.iter() {
+                match item {
+                    WorldItem::Function(f) => visit(f, import),
+                    WorldItem::Interface { id, .. } => {
+                        for (_, f) in resolve.interfaces[*id].functions.iter() {
+                            visit(f, import);
+                        }
+                    }
+                    WorldItem::Type { .. } => {}
+                }
+            }
+        }
+    }
+    u
+}
+
+fn info_bits(i: &TypeInfo) -> [bool; 8] {
+    [i.has_list, i.has_tuple, i.has_resource, i.has_borrow_handle, i.has_own_handle, i.borrowed, i.owned, i.error]
+}
+const FACT: [&str; 8] = ["has_list", "has_tuple", "has_resource", "has_borrow_handle", "has_own_handle", "borrowed", "owned", "error"];
+
+fn type_label(r: &Resolve, id: TypeId) -> String {
+    match &r.types[id].name {
+        Some(n) => format!("`{n}`#{}", id.index()),
+        None => format!("<anonymous>#{}", id.index()),
+    }
+}
+
+fn upper_camel(s: &str) -> String {
+    s.split('-')
+        .map(|w| {
+            let mut c = w.chars();
+            match c.next() {
+                Some(f) => f.to_ascii_uppercase().to_string() + c.as_str(),
+                None => String::new(),
+            }
+        })
+        .collect()
+}
+
+fn count_items(items: &[syn::Item], names: &BTreeSet<String>, n: &mut usize) {
+    for it in items {
+        match it {
+            syn::Item::Struct(s) if names.contains(&s.ident.to_string()) => *n += 1,
+            syn::Item::Enum(e) if names.contains(&e.ident.to_string()) => *n += 1,
+            syn::Item::Mod(m) => {
+                if let Some((_, inner)) = &m.content {
+                    count_items(inner, names, n);
+                }
+            }
+            _ => {}
+        }
+    }
+}
+
+// ------------------------------------------------------------ one case
+
+fn run_world(wit: &str, resolve: &Resolve, world: WorldId, source: &str, e2e: bool, both_ways: bool, idx: u64, seed: u64, rep: &mut Report) {
+    let replay = |extra: Value| json!({"seed": seed, "stream": "world", "case": idx, "source": source, "wit": wit, "detail": extra});
+    let mut o = Oracle { r: resolve, canon: HashMap::new(), content: HashMap::new() };
+    let mut live = LiveTypes::default();
+    live.add_world(resolve, world);
+    let live: Vec<TypeId> = live.iter().collect();
+
+    // real analysis, twice: facts before merging, classes + facts after merging
+    let pre = catch(|| {
+        let mut t = Types::default();
+        t.analyze(resolve);
+        t
+    });
+    let pre = match pre {
+        Ok(t) => t,
+        Err((m, l)) => {
+            rep.violation("types:panic:analyze", &format!("Types::analyze panicked at {l}: {m}"), replay(json!({})));
+            return;
+        }
+    };
+    let post = catch(|| {
+        let mut t = Types::default();
+        t.analyze(resolve);
+        t.collect_equal_types(resolve, world, &|_| true);
+        t
+    });
+    let mut post = match post {
+        Ok(t) => t,
+        Err((m, l)) => {
+            rep.violation("types:panic:collect_equal_types", &format!("Types::collect_equal_types panicked at {l}: {m}"), replay(json!({})));
+            return;
+        }
+    };
+    rep.eval();
+    rep.count(&format!("worlds:{source}"));
+    rep.count_n("live_types", live.len() as u64);
+
+    // ---- A. classes
+    let canons: Vec<String> = live.iter().map(|id| o.canon_id(*id)).collect();
+    let reps: Vec<TypeId> = live.iter().map(|id| post.get_representative_type(*id)).collect();
+    let mut classes_ok = true;
+    let mut equal_pairs = 0u64;
+    'outer: for i in 0..live.len() {
+        for j in 0..i {
+            let want = canons[i] == canons[j];
+            let got = reps[i] == reps[j];
+            if want {
+                equal_pairs += 1;
+            }
+            if want != got {
+                classes_ok = false;
+                let mut ks = [o.kind_name(live[i]), o.kind_name(live[j])];
+                ks.sort();
+                let sig = format!("types:{}:{}-{}", if got { "merged-unequal" } else { "not-merged-equal" }, ks[0], ks[1]);
+                rep.violation(
+                    &sig,
+                    &format!(
+                        "types {} = {} and {} = {} are {} structurally equal but get_representative_type says {}",
+                        type_label(resolve, live[i]),
+                        clip(&canons[i], 160),
+                        type_label(resolve, live[j]),
+                        clip(&canons[j], 160),
+                        if want { "" } else { "NOT" },
+                        if got { "same class" } else { "different classes" }
+                    ),
+                    replay(json!({"a": type_label(resolve, live[i]), "b": type_label(resolve, live[j])})),
+                );
+                break 'outer;
+            }
+        }
+    }
+    rep.count_n("pairs_compared", (live.len() * live.len().saturating_sub(1) / 2) as u64);
+    rep.count_n("equal_pairs", equal_pairs);
+    let n_classes = canons.iter().collect::<BTreeSet<_>>().len();
+    if equal_pairs > 0 {
+        // distinct key: multiset of class sizes + kinds
+        let mut by: BTreeMap<&String, (usize, &'static str)> = BTreeMap::new();
+        for (i, c) in canons.iter().enumerate() {
+            let e = by.entry(c).or_insert((0, o.kind_name(live[i])));
+            e.0 += 1;
+        }
+        let mut shape: Vec<String> = by.values().filter(|(n, _)| *n > 1).map(|(n, k)| format!("{k}x{n}")).collect();
+        shape.sort();
+        rep.distinct(&format!("{}|{}", shape.join(","), live.len()));
+    }
+
+    // ---- B. facts before merging
+    let u = usage(&o, resolve);
+    let mut facts_ok = true;
+    for (id, td) in resolve.types.iter() {
+        let info = info_bits(&pre.get(id));
+        let c = o.content_id(id);
+        for k in 0..5 {
+            rep.count("facts_judged");
+            if (c.lo[k] && !info[k]) || (!c.hi[k] && info[k]) {
+                facts_ok = false;
+                rep.violation(
+                    &format!("types:typeinfo:{}:{}:{}", FACT[k], if info[k] { "spurious" } else { "missing" }, o.kind_name(id)),
+                    &format!("type {} = {}: {} is {} but its definition implies {}", type_label(resolve, id), clip(&o.canon_id(id), 160), FACT[k], info[k], !info[k]),
+                    replay(json!({"type": type_label(resolve, id)})),
+                );
+            }
+        }
+        if td.name.is_some() {
+            for k in 0..3 {
+                rep.count("facts_judged");
+                let (lo, hi) = (u.lo[k].contains(&id), u.hi[k].contains(&id));
+                let got = info[5 + k];
+                if (lo && !got) || (!hi && got) {
+                    facts_ok = false;
+                    rep.violation(
+                        &format!("types:typeinfo:{}:{}:{}", FACT[5 + k], if got { "spurious" } else { "missing" }, o.kind_name(id)),
+                        &format!(
+                            "named type {} = {}: {} is {got} but its uses in the worlds' functions imply {}",
+                            type_label(resolve, id),
+                            clip(&o.canon_id(id), 160),
+                            FACT[5 + k],
+                            !got
+                        ),
+                        replay(json!({"type": type_label(resolve, id)})),
+                    );
+                }
+                if lo {
+                    rep.count(&format!("named_types_{}", FACT[5 + k]));
+                }
+            }
+        }
+    }
+
+    // ---- C. union after merging (only meaningful when the classes are right)
+    if classes_ok && facts_ok {
+        let mut class_union: BTreeMap<&String, [bool; 8]> = BTreeMap::new();
+        for (i, id) in live.iter().enumerate() {
+            let b = info_bits(&pre.get(*id));
+            let e = class_union.entry(&canons[i]).or_insert([false; 8]);
+            for k in 0..8 {
+                e[k] |= b[k];
+            }
+        }
+        for (i, id) in live.iter().enumerate() {
+            let got = info_bits(&post.get(*id));
+            let want = class_union[&canons[i]];
+            if got != want {
+                let k = (0..8).find(|k| got[*k] != want[*k]).unwrap();
+                rep.violation(
+                    &format!("types:merged-info-not-union:{}", FACT[k]),
+                    &format!(
+                        "after collect_equal_types, type {} = {} has {}={} but the union over its class of the facts before merging is {}",
+                        type_label(resolve, *id),
+                        clip(&canons[i], 160),
+                        FACT[k],
+                        got[k],
+                        want[k]
+                    ),
+                    replay(json!({"type": type_label(resolve, *id)})),
+                );
+                break;
+            }
+        }
+        rep.count_n("merged_infos_checked", live.len() as u64);
+    }
+    if idx < 3 {
+        rep.sample(json!({"source": source, "wit": wit, "live_types": live.len(), "classes": n_classes, "equal_pairs": equal_pairs}));
+    }
+
+    // ---- D. end to end
+    if !e2e || !classes_ok {
+        return;
+    }
+    if both_ways {
+        rep.count("e2e_skipped:interface both imported and exported");
+        return;
+    }
+    let w = &resolve.worlds[world];
+    let imp: BTreeSet<_> = w.imports.values().filter_map(|i| if let WorldItem::Interface { id, .. } = i { Some(*id) } else { None }).collect();
+    if w.exports.values().any(|i| matches!(i, WorldItem::Interface { id, .. } if imp.contains(id))) {
+        rep.count("e2e_skipped:interface both imported and exported");
+        return;
+    }
+    // The Rust generator emits a definition only for types some function uses, so only classes
+    // with a used member count.  Types whose only uses pass through future/stream payloads are
+    // ambiguous ("used"?) and make the count unjudgeable for this world.
+    let used_lo: BTreeSet<TypeId> = u.lo[0].union(&u.lo[1]).cloned().collect();
+    let used_hi: BTreeSet<TypeId> = u.hi[0].union(&u.hi[1]).cloned().collect();
+    let is_nominal = |id: TypeId| {
+        let td = &resolve.types[id];
+        td.name.is_some() && matches!(td.kind, TypeDefKind::Record(_) | TypeDefKind::Variant(_) | TypeDefKind::Enum(_))
+    };
+    if live.iter().any(|id| is_nominal(*id) && used_hi.contains(id) != used_lo.contains(id)) {
+        rep.count("e2e_skipped:nominal type used only through a future/stream payload");
+        return;
+    }
+    let mut used_classes: BTreeSet<&String> = BTreeSet::new();
+    for (i, id) in live.iter().enumerate() {
+        if used_lo.contains(id) {
+            used_classes.insert(&canons[i]);
+        }
+    }
+    let mut names = BTreeSet::new();
+    let mut nominal_classes = BTreeSet::new();
+    for (i, id) in live.iter().enumerate() {
+        if is_nominal(*id) && used_classes.contains(&canons[i]) {
+            names.insert(upper_camel(resolve.types[*id].name.as_ref().unwrap()));
+            nominal_classes.insert(&canons[i]);
+        }
+    }
+    let (mut r2, w2) = match witgen::parse(wit) {
+        Ok(x) => x,
+        Err(_) => return,
+    };
+    let mut files = Files::default();
+    let res = catch(|| {
+        let mut opts = wit_bindgen_rust::Opts::default();
+        opts.generate_all = true;
+        opts.merge_structurally_equal_types = Some(Some(true));
+        opts.build().generate(&mut r2, w2, &mut files)
+    });
+    match res {
+        Ok(Ok(())) => {}
+        Ok(Err(e)) => {
+            rep.inconclusive(&format!("C28 e2e: Rust generator error: {}", clip(&format!("{e:#}"), 80)));
+            return;
+        }
+        Err((m, l)) => {
+            rep.inconclusive(&format!("C28 e2e: Rust generator panicked at {l}: {}", clip(&m, 80)));
+            return;
+        }
+    }
+    let mut n_items = 0;
+    for (name, c) in files.iter() {
+        if !name.ends_with(".rs") {
+            continue;
+        }
+        match syn::parse_file(&String::from_utf8_lossy(c)) {
+            Ok(f) => count_items(&f.items, &names, &mut n_items),
+            Err(e) => {
+                rep.inconclusive(&format!("C28 e2e: generated Rust does not parse with syn: {}", clip(&e.to_string(), 80)));
+                return;
+            }
+        }
+    }
+    rep.count("e2e_worlds");
+    rep.count_n("e2e_nominal_classes", nominal_classes.len() as u64);
+    if n_items != nominal_classes.len() {
+        rep.violation(
+            &format!("types:e2e:rust-merge:{}", if n_items > nominal_classes.len() { "equal-types-defined-separately" } else { "unequal-types-share-a-definition" }),
+            &format!(
+                "Rust bindings (merge_structurally_equal_types) define {n_items} struct/enum items named after the world's used record/variant/enum types {:?} but these types form {} structural classes",
+                names,
+                nominal_classes.len()
+            ),
+            replay(json!({"struct_enum_items": n_items, "classes": nominal_classes.len()})),
+        );
+    }
+}
+
+fn run_case(rng: &mut Rng, idx: u64, rep: &mut Report, seed: u64, e2e: bool) {
+    if rng.chance(1, 5) {
+        let cfg = witgen::Cfg {
+            async_: rng.chance(1, 2),
+            error_context: rng.chance(1, 3),
+            fixed_lists: rng.chance(1, 3),
+            docs: false,
+            ifaces: 3,
+            types: 6,
+            ..Default::default()
+        };
+        // parse only: Types needs a Resolve, not an encodable component
+        let w = witgen::generate(rng, &cfg);
+        match witgen::parse(&w.wit) {
+            Ok((r, id)) => run_world(&w.wit, &r, id, "witgen", false, true, idx, seed, rep),
+            Err(_) => rep.count("witgen_world_rejected_by_parser"),
+        }
+        return;
+    }
+    let g = gen_world(rng);
+    match witgen::parse(&g.wit) {
+        Ok((r, id)) => run_world(&g.wit, &r, id, "equal-rich", e2e, g.both_ways, idx, seed, rep),
+        Err(e) => {
+            rep.count("generated_world_rejected_by_parser");
+            if std::env::var("C28_DEBUG").is_ok() {
+                eprintln!("rejected: {e:#}\n{}", g.wit);
+            }
+        }
+    }
+}
+
+fn directed() -> Vec<&'static str> {
+    vec![
+        r#"package t:p;
+interface a {
+  record r1 { x: u32, y: string }
+  record r2 { x: u32, y: string }
+  record r3 { y: string, x: u32 }
+  record r4 { x: u32, z: string }
+  variant v1 { a(u32), b }
+  variant v2 { a(u32), b }
+  variant v3 { b, a(u32) }
+  enum e1 { a, b }
+  enum e2 { a, b }
+  flags f1 { a, b }
+  type al = r1;
+  type l1 = list<r1>;
+  type l2 = list<r2>;
+  resource res1;
+  resource res2;
+  f: func(a: r1, b: r2, c: r3, d: v1, e: v2, g: e1, h: e2, i: f1, j: al, k: res1, l: borrow<res2>, m: r4, n: v3, o: l1) -> result<tuple<r1, l2>, e1>;
+}
+interface b {
+  use a.{r1 as q1, res1};
+  record r1 { x: u32, y: string }
+  g: func(a: q1, b: r1, c: option<r1>, d: borrow<res1>) -> result<r1, q1>;
+}
+world w {
+  import a;
+  export b;
+}
+"#,
+    ]
+}
+
+const DIRECTED_BASE: u64 = 1 << 60;
+
+fn main() {
+    std::env::set_var("VERIF_WASM_IMPORTS", "1");
+    let args = Args::parse();
+    let seed = args.seed();
+    let n: u64 = args.u64("n", if args.thorough() { 400_000 } else { 12_000 });
+    let n_e2e: u64 = args.u64("e2e", if args.thorough() { 30_000 } else { 800 });
+    let mut rep = Report::new(
+        "case = one world (4/5: generator producing few-field records / variants / enums / flags from tiny alphabets, repeated bodies under new names, aliases, `use … as …`, resources, nested anonymous types; 1/5: witgen world) analysed by Types; \
+         distinct = (multiset of non-singleton class kinds and sizes, number of live types) of worlds with at least one pair of structurally equal live types",
+    );
+    rep.assume("live types and the type AST come from wit-parser (LiveTypes, Resolve); canonical strings, fact bounds and class unions are computed here");
+    rep.assume("facts are judged as lo <= real <= hi: lo counts only string/list, tuple, resource/own/borrow and uses not passing through future/stream payloads; hi also counts map and fixed-length list as lists, future/stream/error-context as resource handles, payload contents, and any type under the error side of any result in a signature");
+    rep.assume("usage facts are judged for named types only; e2e counts struct/enum items only for worlds where no interface is both imported and exported");
+    if let Some(i) = only_case(&args) {
+        if i >= DIRECTED_BASE {
+            let wit = directed()[(i - DIRECTED_BASE) as usize];
+            let (r, id) = witgen::parse(wit).expect("directed world parses");
+            run_world(wit, &r, id, "directed", true, false, i, seed, &mut rep);
+        } else {
+            let mut rng = corelib_mon::case_rng(seed, 28, i);
+            run_case(&mut rng, i, &mut rep, seed, true);
+        }
+    } else {
+        for (k, wit) in directed().iter().enumerate() {
+            let (r, id) = witgen::parse(wit).expect("directed world parses");
+            run_world(wit, &r, id, "directed", true, false, DIRECTED_BASE + k as u64, seed, &mut rep);
+        }
+        fan_out(&mut rep, seed, 28, n, |rng, i, r| run_case(rng, i, r, seed, i < n_e2e));
+    }
+    rep.write(&args.out());
+}
